@@ -468,15 +468,17 @@ Proof.
   { unfold visible_fields, wf_doc in *. destruct (d_form d); [now rewrite Hwf|].
     destruct (d_acro d); reflexivity. }
   rewrite Hvis. rewrite <- own_sig_forest.
-  set (F := forest_nodes _). set (g := fun o : N * option ftype => _).
-  split.
+  change (fun x : N * option ftype => osig (snd x)) with nsig.
+  generalize (forest_nodes match d_form d with Some fm => fm_fields fm | None => [] end) as F.
+  generalize (fun o : N * option ftype => osig (snd o) && on_some_page (d_pages d) (fst o)) as g.
+  intros g F. split.
   - intros Hnil. apply app_eq_nil in Hnil as [H1 H2].
     apply map_eq_nil in H1. apply map_eq_nil in H2.
     apply filter_nil_existsb in H1. apply filter_nil_existsb in H2.
-    unfold nsig. now rewrite H1, H2.
+    now rewrite H1, H2.
   - intros Hh. apply orb_false_iff in Hh as [H1 H2].
     apply filter_nil_existsb in H1. apply filter_nil_existsb in H2.
-    unfold nsig in H1. now rewrite H1, H2.
+    now rewrite H1, H2.
 Qed.
 
 Lemma no_sigs_error : forall d, wf_doc d -> (sig_ids d = [] <-> remove_signatures d = None).
